@@ -134,6 +134,7 @@ pub fn concretize(t: &Value, cfg: &Cfg, enc: EncImpl, rng: &mut StdRng) -> Vec<u
           let as_enc = cfg.mech == "ENC";
           if !as_enc {
             match i {
+              1 if b["ok"].as_bool().unwrap_or(false) => b"\x05HELLO\x04user\x06secret".to_vec(),
               1 => b"\x05HELLO\x04user\x05wrong".to_vec(),
               2 => b"\x07WELCOME".to_vec(),
               _ => {
@@ -230,7 +231,9 @@ fn prop_checks(cfg: &Cfg, ep: &Endpoint, script_labels: &[String], step: usize, 
   };
   let hc = ep.apps.iter().filter(|x| x.a == "hc").count();
   let dl = ep.apps.iter().filter(|x| x.a == "deliver").count();
-  if peer_must_prove(cfg) && (hc > 0 || dl > 0) {
+  // a PLAIN client that sent the right password has proved what PLAIN asks for
+  let proved = cfg.mech == "PLAIN" && cfg.srv && script_labels.iter().any(|l| l == "(knows the password)");
+  if peer_must_prove(cfg) && !proved && (hc > 0 || dl > 0) {
     push("bypass", format!("{} {} engine reported {} completed handshake(s) and {} message(s) to a peer that proved nothing; peer sent {:?}", cfg.mech, if cfg.srv { "server" } else { "client" }, hc, dl, script_labels));
   }
   if cfg.mech == "PLAIN" && !cfg.srv && hc > 0 {
@@ -304,6 +307,9 @@ pub fn run(index: usize, b: &Behaviour, enc: EncImpl, seed: u64, mutate: bool, p
           run_len = 0;
         }
         labels.push(tok_label(&st["tok"]));
+        if st["tok"]["b"]["b"].as_str() == Some("mech") && st["tok"]["b"]["ok"].as_bool().unwrap_or(false) {
+          labels.push("(knows the password)".into());
+        }
         if victim == Some(si) {
           let kind = rng.random_range(0..6);
           let desc;
@@ -456,6 +462,9 @@ pub fn run_segmentation(index: usize, b: &Behaviour, enc: EncImpl, seed: u64) ->
     if st["a"].as_str() == Some("emit") {
       toks.push(concretize(&st["tok"], &b.cfg, enc, &mut rng));
       labels.push(tok_label(&st["tok"]));
+      if st["tok"]["b"]["b"].as_str() == Some("mech") && st["tok"]["b"]["ok"].as_bool().unwrap_or(false) {
+        labels.push("(knows the password)".into());
+      }
     }
   }
   let stream: Vec<u8> = toks.iter().flatten().cloned().collect();
